@@ -1,9 +1,36 @@
-(* C18 — arbitrary rotations (FieldRotator).  ONLY statements, each closed by [exact]. *)
+(* C18 — arbitrary rotations (FieldRotator).  ONLY statements, each closed by [exact].
+   [rnd] is the representation hook of the model (see model/Rotator.v); theorems that speak about
+   values are stated for every hook with rnd x == x (identity, Qred). *)
 From DF Require Import Prelude Rotator C18_machine.
 Open Scope Q_scope.
 
 (* clear_rotation restores the original field (and the identity rotation) after any history *)
-Theorem C18_clear_restores : forall nv perm orig choose_n ops,
-  run nv perm orig choose_n (ops ++ [OClear]) = St mid orig.
+Theorem C18_clear_restores : forall rnd nv perm orig choose_n ops,
+  run rnd nv perm orig choose_n (ops ++ [OClear]) = St mid orig.
 Proof. exact clear_restores. Qed.
 Print Assumptions C18_clear_restores.
+
+(* after any history ending with a rotation the field is F(original, accumulated matrix): it does not
+   depend on the intermediate fields or on the resolutions chosen on the way *)
+Theorem C18_compose : forall rnd nv perm orig choose_n ops M nopt,
+  let R := acc_rot rnd mid (ops ++ [ORot M nopt]) in
+  run rnd nv perm orig choose_n (ops ++ [ORot M nopt]) =
+  St R (rotated_field rnd nv perm orig R (match nopt with Some n => n | None => choose_n R end)).
+Proof. exact run_field. Qed.
+Print Assumptions C18_compose.
+
+(* each new rotation multiplies the accumulated matrix from the left *)
+Theorem C18_left_multiplication : forall rnd ops M nopt a,
+  acc_rot rnd a (ops ++ [ORot M nopt]) = mmul rnd M (acc_rot rnd a ops).
+Proof. exact acc_rot_last. Qed.
+Print Assumptions C18_left_multiplication.
+
+(* ... so that later rotations are applied after earlier ones *)
+Theorem C18_compose_in_order : forall rnd, (forall x, rnd x == x) -> forall ops, no_clear ops -> forall v,
+  veq (mapply rnd (acc_rot rnd mid ops) v) (apply_steps rnd ops v).
+Proof. exact compose_in_order. Qed.
+Print Assumptions C18_compose_in_order.
+
+Example C18_compose_in_order_nonvacuous :
+  no_clear [ORot (M3 (V3 0 (-1) 0) (V3 1 0 0) (V3 0 0 1)) None; ORot mid (Some (N3 1 2 3))].
+Proof. exact I. Qed.
